@@ -238,10 +238,10 @@ ADDED = {
     "C08": "Also: str range-index bounds are character boundaries by construction; admitted scalar types vs handled constant kinds (contradiction rule).",
     "C10": "Also: the location decoders of SourceManager (C14.line rules) under 'every diagnostic position lies inside the file'.",
     "C12": "Also: the include cache is keyed by the requested name (one file id per name, #pragma once per id).",
-    "C13": "Also: the literal folding fast path of ImplicitConversion::apply agrees with evaluate_cast.",
+    "C13": "Also: the literal folding fast path of ImplicitConversion::apply agrees with evaluate_cast. evaluate_operator is read as a function: 8 unary / 20 binary operators x 9 constant kinds x sample values (plain and enum-wrapped, about 6500 folded evaluations) against the run-time semantics written in the rule; refusing to fold is always allowed.",
     "C14": "Also: comment scanners start after their opener; no function outside the lexer and Token::is_whitespace singles out Whitespace or Comment; both location decoders select the file with one strict comparison.",
     "C15": "Also: generated global names are published to the set the local phase consults; ScopedName helpers derive from NameMap::get_name_qualified.",
-    "C16": "Also: opponents are skipped only for being the candidate itself; a function id enters a scope only where it is created and unconditionally.",
+    "C16": "Also: opponents are skipped only for being the candidate itself; a function id enters a scope only where it is created and unconditionally. find_function_type evaluated as a whole on 819 scripted overload lists, and overload resolution end to end (write_function .. ImplicitConversion::find / get_rank, nothing scripted) on the model type registry: every set of two or three one-parameter overloads over 8 types and every pair of two-parameter overloads, in every declaration order, for 13 argument types - same verdict in every order, an exact match wins.",
     "C17": "Also: exporters read module.pipelines only as pipelines[<variable>].",
     "C18": "Also: every front-end call is reachable for every Target value (per-value edge feasibility with constant propagation through matches!); both analyse_bindings read type layers after remove_modifier.",
     "C19": "Also: each layout is rounded with its own alignment and those two layouts are the ones compared.",
@@ -259,10 +259,10 @@ TECH = {
     "C10": "; SourceManager location decoders read on a three-file model",
     "C11": "; ConditionChain operations read on concrete chains, #if leaf parser and result test read as tables, condition pushes read as truth tables",
     "C12": "; Macro::parse read on eleven #define lines; value-origin trace of the include cache key",
-    "C13": "; evaluate_cast and the literal folding of ImplicitConversion::apply read as complete tables on sample values against reference conversions",
+    "C13": "; evaluate_cast, evaluate_operator and the literal folding of ImplicitConversion::apply read as complete tables on sample values against reference conversions / run-time operator semantics",
     "C14": "; SourceManager read on a three-file model; Macro::parse adjacency table; trivia-kind inventory with positive control",
     "C15": "; NameMap::build read on four model modules (uniqueness, reserved words, verbatim names, locals vs generated names, both hash orders)",
-    "C16": "; find / get_rank read on a finite type-registry model; the numeric-rank tournament read on all 819 ordered candidate lists of length <= 3",
+    "C16": "; find / get_rank read on a finite type-registry model; the numeric-rank tournament and the whole of find_function_type read on all 819 ordered candidate lists of length <= 3; write_function read end to end on overload sets over the type model in every declaration order",
     "C17": "; selection-loop skip condition read as a table; exporter reads of module.pipelines",
     "C18": "; per-Target reachability with constant propagation on MIR; sibling agreement of analyse_bindings",
     "C19": "; check_layout / get_type_layout read on model modules against the packing rules",
